@@ -272,6 +272,20 @@ def c13_a1(ctx):
     return allsaved
 
 
+def empty_lookup_guard(fi, node):
+    """True when `node` is reached only with an EMPTY lookup table (second parameter): the mapping lookup[k] -> k is then vacuous, whatever is returned."""
+    from vlib.pat import Pat
+    from vlib import q
+    lp = fi.params[1]
+    empty = ['len(%s) == 0' % lp, 'not len(%s)' % lp, '%s.size == 0' % lp, 'not %s.size' % lp, '%s.shape[0] == 0' % lp, 'len(%s) < 1' % lp, '0 == len(%s)' % lp]
+    nonempty = ['len(%s)' % lp, 'len(%s) > 0' % lp, 'len(%s) != 0' % lp, '%s.size' % lp, '%s.size > 0' % lp, 'len(%s) >= 1' % lp]
+    for if_, branch in q.enclosing_ifs(fi, node):
+        t = fi.expand(if_.test)
+        if (branch == 'body' and Pat().any(empty, t)) or (branch == 'orelse' and Pat().any(nonempty, t)):
+            return True
+    return False
+
+
 def check_index_of(ctx, rule):
     """_index_of(arr, lookup) typed against its signature: every return holds positions IN THE LOOKUP (caller's order), on the axes of arr."""
     repo = ctx.repo
@@ -282,6 +296,8 @@ def check_index_of(ctx, rule):
     rets = S.run(fi, {fi.params[0]: Arr((A_,), Ix(X_)), fi.params[1]: Arr((K_,), Ix(X_))})
     bad, und, n = None, None, 0
     for node, v in rets:
+        if empty_lookup_guard(fi, node):
+            continue
         n += 1
         if isinstance(v, Arr) and isinstance(v.elem, Ix):
             sp = v.elem.space
